@@ -90,15 +90,15 @@ CLAIMED = {
    design="§7 C13"),
  "C06": dict(
    engine="evolution",
-   text="Lean model of the structural core of schema-evolution change detection (compareTypes and the detect*Changes family on resolved types with nominal records/enums, the greedy union matching, record/enum definition comparison, and the error/warning/silent classification of validateTypeDefinitionChanges / validateProtocolChanges). Kernel-checked: the verdict function is total; its primitive-change classification equals, on all 324 ordered pairs, a table regenerated every run by executing ValidateEvolution of the current source; documented primitive classes (numbers and strings interconvert with a warning, complex with complex, everything else rejected, identical silent); rejection is symmetric; stream/vector/optional wrappers preserve errors and unchangedness; reflexivity of comparison for all types built from primitives and containers (partial: records/enums/unions are evaluated, not proved). Tied to the code by judging random version pairs (1-3 random edits at any position: type rewrites, record/enum edits, protocol edits) with the real ValidateEvolution in-process (and yardl validate on a sample) and with the model: verdicts must agree, no panic, same answer twice; every edit of a documented class at a position the documentation speaks about must get the documented verdict; the documentation's own examples, meaning-preserving rewrites of packages with generics/aliases (order, unused definitions, comments, rename through alias, re-spelling) must be silent, and type-argument changes (also behind an alias in one version) rejected.",
-   note="PARTIAL proof (see text). Not modelled: pairing of definitions through aliases and generic instantiations (resolveAllChanges/SemanticPairs) - exercised by the rewrite/edit-class differential only. Known finding: dimensioned types cannot be made optional / union members. One defect fixed (respelled previous version rejected).",
-   technique="Lean 4 model + kernel-checked table/structural theorems (partial) + differential correspondence with ValidateEvolution + documented-class oracle",
+   text="Lean model of the structural core of schema-evolution change detection (compareTypes and the detect*Changes family on resolved types with nominal records/enums, generic records as open definition + type arguments compared argument-wise (compareSemanticallyEquivalentTypes) with type parameters compared by position, the greedy union matching, record/enum definition comparison, and the error/warning/silent classification of validateTypeDefinitionChanges / validateProtocolChanges). Kernel-checked: the verdict function is total; its primitive-change classification equals, on all 324 ordered pairs, a table regenerated every run by executing ValidateEvolution of the current source; documented primitive classes (numbers and strings interconvert with a warning, complex with complex, everything else rejected, identical silent); rejection is symmetric; stream/vector/optional wrappers preserve errors and unchangedness; a well-formed type (distinct field / symbol names, non-empty unions - what validation enforces) compared with itself is unchanged, for every type incl. records, enums, unions (greedy matching pairs every case with itself) and generic instances, at any depth, and the hypothesis is necessary (witness); a protocol with distinct step names compared with itself gets the verdict ok whatever the new version defines. Tied to the code by judging random version pairs (1-3 random edits at any position: type rewrites, record/enum edits, edits of generic record bodies, protocol edits; versions with generic records instantiated several times) and a directed family (several instantiations of one generic reached from one step / several steps / a holder record x every documented edit in a definition only one type argument reaches) with the real ValidateEvolution in-process (and yardl validate on a sample) and with the model: verdicts must agree, no panic, same answer twice; every edit of a documented class at a position the documentation speaks about must get the documented verdict; the documentation's own examples, meaning-preserving rewrites of packages with generics/aliases (order, unused definitions, comments, rename through alias, re-spelling) must be silent, and type-argument changes (also behind an alias in one version) rejected.",
+   note="Not modelled: pairing of definitions through *aliases* (SemanticPairs of renamed definitions) - exercised by the rewrite/edit-class differential only; generic aliases and multi-parameter generics are exercised by the directed examples only. Known finding: dimensioned types cannot be made optional / union members. One defect fixed (respelled previous version rejected).",
+   technique="Lean 4 model + kernel-checked theorems (reflexivity for all well-formed types, primitive table regenerated from source) + differential correspondence with ValidateEvolution + documented-class oracle",
    design="§7 C06"),
  "C05": dict(
    engine="evolution",
-   text="Lean model conv of the value conversions the generated C++ performs between schema versions (records field-by-name with added fields zeroed and removed ones dropped, element-wise vectors/streams/optionals, optional<->scalar<->union through the matched case with zero values, union<->union through the greedy matching with a runtime error for cases without counterpart, integer conversions with the generated overflow checks, integers<->canonical decimal strings). Kernel-checked: totality; a value converted between identical types is unchanged (types built from primitives and containers, any depth - partial: records/enums/unions evaluated only); the documented record/overflow behaviours on concrete shapes. Tied to the code by execution: random and directed chains M0->M1->M2 of accepted edits (every documented compatible / partially compatible class at a field and at a step); M2 lists M0 and M1, its C++ is generated and compiled on every run; Lean-encoded streams of each listed version are read by the new reader and re-written, and newest-version values are written for each listed version; outputs are decoded by the Lean reference decoder (with the right schema in the header) and compared with conv; predicted runtime errors must be raised; crashes are violations.",
-   note="PARTIAL: conversions involving floating point/complex numbers and non-canonical number<->string text are not modelled (checked for 'no crash' only); Python/MATLAB have no evolution support (documented). Trusted: Lean kernel, evogen.py, C++ ndarray shim (default dynamic array = 0-d with one element, as xtensor). Four defects fixed (stale values across stream items; three families of non-compiling conversion code).",
-   technique="Lean 4 model + kernel-checked structural theorems (partial) + differential execution of freshly generated C++ against the model",
+   text="Lean model conv of the value conversions the generated C++ performs between schema versions (records field-by-name with added fields zeroed and removed ones dropped, element-wise vectors/streams/optionals, optional<->scalar<->union through the matched case with zero values, union<->union through the greedy matching with a runtime error for cases without counterpart, integer conversions with the generated overflow checks, integers<->canonical decimal strings). Kernel-checked: totality; a value converted between two identical well-formed types is unchanged, in both directions, for every type (records field by field through the by-name lookup, enums, unions through the self-matching of detectUnionChanges, optionals, vectors, arrays, maps; any depth) and every value of the type; the documented record/overflow behaviours on concrete shapes. Tied to the code by execution: random and directed chains M0->M1->M2 of accepted edits (every documented compatible / partially compatible class at a field and at a step); M2 lists M0 and M1, its C++ is generated and compiled on every run; Lean-encoded streams of each listed version are read by the new reader and re-written, and newest-version values are written for each listed version; outputs are decoded by the Lean reference decoder (with the right schema in the header) and compared with conv; predicted runtime errors must be raised; crashes are violations.",
+   note="PARTIAL: conversions involving floating point/complex numbers and non-canonical number<->string text are not modelled (checked for 'no crash' only); Python/MATLAB have no evolution support (documented). Trusted: Lean kernel, evogen.py, C++ ndarray shim (default dynamic array = 0-d with one element, as xtensor). Conversions between *different* types are tied by execution only (no theorem says what the right converted value is beyond the documented classes). Directed chains include same-width sign changes. Four defects fixed (stale values across stream items; three families of non-compiling conversion code).",
+   technique="Lean 4 model + kernel-checked theorems (identity conversion for all well-formed types, totality) + differential execution of freshly generated C++ against the model",
    design="§7 C05"),
  "C09": dict(
    engine="rules",
